@@ -14,6 +14,7 @@ import io
 import linecache
 import os
 import shutil
+import sys
 
 from harness.drivers.common import read_payload, emit
 
@@ -59,9 +60,45 @@ def write_file(path, text):
         os.utime(path, ns=(st.st_atime_ns, st.st_mtime_ns + n * 5_000_000_000))
 
 
+def report(entry, stats, unit, output_unit, combo, stream, d):
+    """One report through one of the entry points that print statistics held in memory / in a file:
+    show_text(timings, unit, ...); LineProfiler.print_stats() of a profiler whose get_stats() returns
+    LineStats(timings, unit) (a subclass serving merged / rescaled / loaded statistics); the viewer
+    main() (`python -m line_profiler -u U [-z] [-t] [-m] FILE`) on the pickled LineStats."""
+    import contextlib
+    import pickle
+    from line_profiler import line_profiler as LP
+    from line_profiler._line_profiler import LineStats
+    strip, sort, summ, det = combo
+    if entry == 'show_text':
+        LP.show_text(stats, unit, output_unit=output_unit, stream=stream,
+                     stripzeros=strip, sort=sort, summarize=summ, details=det)
+    elif entry == 'print_stats':
+        class StatsServingProfiler(LP.LineProfiler):
+            def get_stats(self):
+                return LineStats(dict(stats), unit)
+        StatsServingProfiler().print_stats(stream=stream, output_unit=output_unit, stripzeros=strip,
+                                           details=det, summarize=summ, sort=sort)
+    elif entry == 'viewer':
+        assert det and output_unit is not None
+        path = os.path.join(d, 'synthetic.lprof')
+        with open(path, 'wb') as f:
+            pickle.dump(LineStats(dict(stats), unit), f, pickle.HIGHEST_PROTOCOL)
+        argv = ['line_profiler', '-u', repr(float(output_unit))] + [a for a, on in (('-z', strip), ('-t', sort), ('-m', summ)) if on] + [path]
+        old = sys.argv
+        sys.argv = argv
+        try:
+            with contextlib.redirect_stdout(stream):
+                LP.main()
+        finally:
+            sys.argv = old
+    else:
+        raise ValueError(entry)
+
+
 def main():
     payload = read_payload()
-    from line_profiler.line_profiler import show_text
+    from line_profiler.line_profiler import show_text  # noqa
     tmp = os.path.realpath(payload['tmp'])
     out = []
     for case in payload['cases']:
@@ -83,10 +120,10 @@ def main():
                 linecache.clearcache()
                 register_cells(cells)       # every report starts with the cells' sources cached
                 try:
-                    show_text(stats, case['unit'], output_unit=case['output_unit'], stream=stream,
-                              stripzeros=strip, sort=sort, summarize=summ, details=det)
+                    report(case.get('entry') or 'show_text', stats, case['unit'], case['output_unit'],
+                           (strip, sort, summ, det), stream, d)
                     texts.append(dict(text=stream.getvalue(), err=None))
-                except Exception as e:  # noqa
+                except (Exception, SystemExit) as e:  # noqa
                     texts.append(dict(text=stream.getvalue(), err=type(e).__name__))
             out.append(dict(env=envs, texts=texts))
         finally:
